@@ -477,6 +477,25 @@ fn lib_op(f: &str, a: &[&str]) -> Option<String> {
                 Err(_) => "-".to_string(),
             })
         }
+        ("strtab", strs) => {
+            // `watto::StringTable`: insert the strings in order; offsets and final bytes
+            let mut t = watto::StringTable::new();
+            let mut offs = Vec::new();
+            for x in strs {
+                let b = unhex(x)?;
+                let s = std::str::from_utf8(&b).ok()?;
+                offs.push(t.insert(s).to_string());
+            }
+            Some(format!("[{}] {}", offs.join(","), hx(t.as_bytes())))
+        }
+        ("strread", [x, off]) => {
+            let b = unhex(x)?;
+            let off: usize = off.parse().ok()?;
+            Some(match watto::StringTable::read(&b, off) {
+                Ok(s) => hxs(s),
+                Err(_) => "-".to_string(),
+            })
+        }
         ("lebw", [n]) => {
             let n: u64 = n.parse().ok()?;
             let mut out = Vec::new();
